@@ -3,7 +3,10 @@ import SlipVerif.Model.LambdaImpl
 import SlipVerif.Driver.Util
 --! namespace: ll
 /- line protocol for C04 (no blanks inside a term):
-     ll bind <lambda-list> <args>      -> ok <name-hex>=<term>*  | err badLL | err <BindErr>
+     ll bind <lambda-list> <args>      -> ok <name-hex>=<term>*  | err badLL | err <BindErr> | err init
+                                          (bindE: bind, then the &aux initial forms evaluated left to right)
+     ll chain <lambda-list> <args> <step>*   step = - | <args>   (call-next-method without / with arguments)
+                                       -> ok <result>;<result>;…  one per method of the chain (steps+1), format as ll hist
      ll arity <lambda-list>            -> ok <min> <max|inf>     | err badLL
      ll doc <name-hex>,<name-hex>,…|-  -> ok <min> <max|inf> <nodupmax|inf> | err badLL
      ll impl <lambda-list> <args>      -> ok <name-hex>=<term|unbound>* | err defLambda | err <ImplErr>
@@ -127,9 +130,24 @@ def handle (entry : String) (args : List String) : String :=
       | .error _, _ => "err badLL"
       | _, none => "bad-request args"
       | .ok ll, some as =>
-        match bind ll as with
+        match bindE ll as with
         | .ok bs => "ok" ++ String.join (bs.map (fun (n, v) => " " ++ hexString n ++ "=" ++ showObj v))
-        | .error e => "err " ++ showErr e
+        | .error (.bind e) => "err " ++ showErr e
+        | .error (.init _) => "err init"
+    | _, _ => "bad-request term"
+  | "chain", l :: a :: steps =>
+    match parseObj l, parseObj a with
+    | some lo, some ao =>
+      match parseLL lo, ao.toList?, steps.mapM (fun s => if s = "-" then some none else (parseObj s).bind (fun o => o.toList?.map some)) with
+      | .error _, _, _ => "err badLL"
+      | _, none, _ => "bad-request args"
+      | _, _, none => "bad-request step"
+      | .ok ll, some as, some sts =>
+        "ok " ++ ";".intercalate ((chainArgs sts as).map (fun v =>
+          match bindE ll v with
+          | .ok bs => "ok" ++ String.join (bs.map (fun (n, v) => "/" ++ hexString n ++ "=" ++ showObj v))
+          | .error (.bind e) => "err " ++ showErr e
+          | .error (.init _) => "err init"))
     | _, _ => "bad-request term"
   | "arity", [l] =>
     match parseObj l with
